@@ -353,7 +353,13 @@ def run_shard(shard):
             res["rejected"] += 1
             continue
         res["accepted"] += 1
-        for field, why in problems(obj):
+        probs = problems(obj)
+        if label.startswith("required-dropped:") and not (tag.startswith("set") and label == "required-dropped:state"):
+            # the INPUT lacks an attribute the DTD requires: whatever default the constructor fills in, accepting it is
+            # accepting a non-conformant element (a default hides the absence from the object, not from the protocol)
+            if not any(f.startswith("required:") for f, _ in probs):
+                probs = probs + [("required:" + label.split(":", 1)[1], "absent-in-input")]
+        for field, why in probs:
             key = ("nonconformant-accepted", "field=%s,value=%s" % (field, why))
             if key in sigs:
                 sigs[key]["count"] += 1
